@@ -619,6 +619,7 @@ func mixCase(hseed uint64) {
 		for _, g := range w.regs {
 			fmt.Fprintf(&sb, " %d %s", g.idx, credFlags(g.clientCred))
 		}
+		sb.WriteString(w.credErrList())
 		fmt.Fprintf(&sb, " %d", len(w.ptable))
 		for _, e := range w.ptable {
 			sb.WriteString(" " + e)
